@@ -79,6 +79,10 @@ CHECKS = {
    technique="generic parameter-list codec and per-type schema tables in TLA+ (ParamList.tla), round-trip law checked with TLC; cases replayed on the real PL-CDR (de)serialisers with foreign parameters spliced into the byte stream; TLC trace validation",
    text="TLC checks the round-trip law on 12 185 cases (presence sets x removed parameters x foreign standard/vendor parameters x byte order) for SpdpDiscoveredParticipantData, DiscoveredReaderData, DiscoveredWriterData, DiscoveredTopicData, ParticipantMessageData and QosPolicies; each case is built as the real struct, serialised, spliced, deserialised and compared with the schema's expected record including RTPS defaults.",
    note="presence combinations: single-field cover plus random; security parameters not covered; known finding Y1"),
+ "C07": dict(level="model_checking", engine="tlc+system-driver+writer-driver", design="§4 C07",
+   technique="TLC model checking of System.tla (discovery plane of two / three participants: every creation order, loss of any announcement, deletion, silence beyond the lease; safety and liveness under fair delivery) and of RtpsWriter.tla (late-joiner clause at the writer); creation orders dumped by TLC replayed on real DomainParticipants through the public API with seeded datagram loss; TLC trace validation (Trace_System.tla, Trace_RtpsWriter.tla)",
+   text="System.tla is model checked for all creation orders of participants, topics, writer and reader with loss of any SPDP/SEDP announcement, late joiner in the same or a third participant, deletion of reader / writer / participant and a silence longer than the lease: matched sets are exactly the compatible pairs (safety) and every compatible pair is eventually matched, every deletion eventually observed (liveness under weak fairness of delivery and periodic re-announcement). The creation orders TLC dumps and seeded random configurations are executed on two or three real DomainParticipants in one process (public API only; all datagrams pass a cfg-gated send hook that applies seeded loss and records, decoded by an independent codec, every user-traffic submessage with its fate); Trace_System.tla judges match within 30 s, completeness / order / integrity of reliable keep-all delivery (values and disposals, payloads of 0..5123 bytes around the fragment size) in the loss-free suffix, TransientLocal history for the late joiner, nothing earlier for a Volatile one, unmatch after deletion, drop and re-match after a blackout. The late-joiner clause is additionally model checked at the writer (RtpsWriter.tla: every interleaving of write / match with or without requested TransientLocal / ACKNACK / repair) and its behaviours replayed on the real Writer.",
+   note="wall-clock bounds (30 s match, 20 s delivery) on real threads: a violation of a bound is reported as such; both participants in one process over loopback; loss <= 20 % per datagram; security-enabled participants not exercised here; known findings S16 (shared TopicCache hands a same-participant Volatile late joiner the old samples) and S3 (lost fragment never repaired: recognised only by its exact wire signature - NACKFRAG for the lowest missing number in the loss-free suffix and no DATAFRAG of it sent)"),
  "C13": dict(level="model_checking", engine="tlc+sched-driver", design="§4 C13",
    technique="hand-over protocols (notify/poll/take, command queue/waker, wait-for-ack reply) as TLA+ processes in Wakeup.tla, all interleavings checked with TLC (no parked thread while its wake-up condition holds); every TLC schedule replayed on the real Reader/DataReader/DataWriter/Writer code under a cooperative two-thread scheduler with cfg-gated yield points; TLC trace validation of the recorded runs",
    text="TLC explores every interleaving of producer (Reader::notify_cache_change / Writer command processing) and application thread (BareDataReaderStream::poll_next, mio-0.6 and mio-0.8 readiness + take, AsyncWrite::poll, AsyncWaitForAcknowledgments::poll) at the grain of the yield points placed in the code, for 1-3 samples / commands; each explored schedule is then forced onto the real code by the cooperative scheduler (src/verif/sched.rs) and the end state judged: no consumer parked with a sample available, no async write parked with room in the queue, no wait that never completes; plus random schedules.",
@@ -103,7 +107,7 @@ def main():
             "level_note": c["note"],
             "technique": c["technique"],
         })
-    na = [{"property_id": p, "reason": NOT_APPLICABLE.get(p, "check built (System.tla, Trace_System.tla, system driver) but not registered: on the unchanged tree it still reports C07_volatile_late_joiner_got_history for a TransientLocal writer with a Volatile late joiner in another participant (candidate finding S18, being classified) and one unexplained C07_sample_missing; it will be claimed once every report is either repaired or listed in known_findings.json")} for p in ALL if p not in CHECKS]
+    na = [{"property_id": p, "reason": NOT_APPLICABLE.get(p, "no check registered")} for p in ALL if p not in CHECKS]
     m = {
         "version": 1,
         "setup_cmd": "./bin/setup",
